@@ -30,6 +30,14 @@ Three kinds of case (plain JSON):
               spelt with ``seps``, is stored into it); a second FilesParagraph wrapping the same
               Deb822.  Whatever the route, ``p.files`` must show the new list and ``p.matches``
               must follow it (the twin is asked as well).
+      create / assign with "patterns" in which some pattern holds white space (at an end, at both
+              ends, inside, or nothing else) - a list the blank-separated field cannot carry: it
+              is handed to create() / the files setter (own or twin) as it is.  EITHER it is
+              refused with ValueError (MachineReadableFormatError is one) and the paragraph goes
+              on showing and matching the list it held, OR it is accepted and matches() /
+              find_files_paragraph answer for the patterns exactly as they were GIVEN (what
+              .files reads back is then not compared).  Refusal is not demanded.  via=assign then
+              assigns the list split at its white space, the given list again, and the old list
       parse   a two-paragraph document whose Files field is spelt with ``seps`` (blanks, tabs,
               continuation lines), read with Copyright(...) in the form given by "input"/"enc"
               (see below); "omit": ["Copyright" | "License", ...] leaves these fields out of the
@@ -40,6 +48,12 @@ Three kinds of case (plain JSON):
            that lacks Copyright/License (or that has neither Files nor License) may be refused
            with the format error unless strict is false; whenever it is accepted, every paragraph
            with a Files field is a Files paragraph of the document and takes part in the lookup
+
+  "fieldcase": [style, ...] - how the harness spells the field names it writes (Format, Files,
+           Copyright, License, Comment; also the keys of a Deb822 it builds a paragraph over):
+           occurrence k in style[k % len] of "asis" | "lower" | "upper" | "swap".  deb822 field
+           names are case-insensitive, so nothing else about the case changes: `files:` makes a
+           Files paragraph, `copyright:` / `license:` are the fields strict asks for
 
   "input": "text-file" (default; io.StringIO) | "text-lines" (list of str) |
            "bytes-file" (io.BytesIO) | "byte-lines" (list of bytes)
@@ -68,6 +82,10 @@ Three kinds of case (plain JSON):
               applied one by one to the live document, every name asked again after each
               (handle as above; "deb822"/"twin" fall back to "own" where the harness holds no
               Deb822, i.e. in parsed documents)
+      a list holding white space may stand in an F entry of a via=dump document (create(); a
+              refused paragraph is left out of the document) and in an edit (the paragraph's own
+              setter / create(); a refused edit changes nothing).  A document holding an accepted
+              one is looked up against the patterns as given and is not dumped and re-read
 
 Oracle: vcheck.model.c16_glob (no ``re``).  ``p.matches(name)`` must equal "some pattern matches the
 whole name" when every pattern of the list is legal and must raise MachineReadableFormatError when
@@ -113,6 +131,15 @@ RULE = ("cases are (Files pattern list, way the list reaches the paragraph, file
         "paragraphs over 3 lists lacking Copyright and/or License (with License and field-less "
         "bystander paragraphs) read with strict=False / strict=True / the default, as text and "
         "built over Deb822 objects with FilesParagraph(data, strict=False); "
+        "parsed documents of 2..3 Files paragraphs whose field names are spelt in other letter "
+        "case (each occurrence of Format / Files / Copyright / License lower, upper, swapped; all "
+        "255 assignments of the 4 styles to the 4 names) x strict False/True/default x 4 input "
+        "forms, single paragraphs in 256 spellings, Deb822-backed paragraphs keyed in 64 "
+        "spellings; lists the Files field cannot carry - 13 white-space strings (blank, tab, "
+        "newline, CR, VT, FF, FS, NEL, NBSP, LS, ideographic space, blank+newline, CRLF) in front "
+        "of, behind, around and inside 5 patterns or alone, in 3 list shapes - handed to create(), "
+        "the files setter (own / twin), paragraphs and edits of built documents and edits of "
+        "parsed ones (refused, or matched exactly as given); "
         "generated: 1..4 patterns of 1..6 "
         "tokens over a 25-token alphabet (regex meta characters, escapes, rare illegal escapes) "
         "reaching the paragraph by create / re-assignment (own files property, the wrapped Deb822, "
@@ -122,7 +149,9 @@ RULE = ("cases are (Files pattern list, way the list reaches the paragraph, file
         "instances concatenated, or the instance in another spelling) and documents of 1..4 Files "
         "paragraphs, half of the built ones over caller-owned Deb822 objects; one parsed case in "
         "four gives the strict parameter (3:1 False) and leaves Copyright/License out of Files "
-        "paragraphs, one case in five converts up to 3 sibling lists first; direct globs_to_re "
+        "paragraphs, one case in five converts up to 3 sibling lists first; one parsed / Deb822-backed "
+        "case in four spells its field names in 1..8 drawn styles; one create/assign case and one "
+        "document in eight puts white space into a pattern given to create() or the setter; direct globs_to_re "
         "lists of 1..4 patterns of 1..6 tokens incl. newline, blank, tab, CR, LS as literals and "
         "(one list in eight) behind a backslash, 6 in 10 after sibling lists. Non-trivial = a legal "
         "list of >=2 patterns and a name of which some pattern matches a proper prefix or proper "
@@ -131,11 +160,21 @@ RULE = ("cases are (Files pattern list, way the list reaches the paragraph, file
 ASSUMPTIONS = [
     "reference glob matcher vcheck/model/c16_glob.py (position-set simulation, cross-checked on "
     "every evaluation against a memoised-recursion formulation; neither uses re)",
-    "patterns of a paragraph contain no whitespace and are non-empty (the Files field is whitespace "
-    "separated; the setter rejects anything else), so there 'newlines' of the quantifier occur in "
+    "patterns a paragraph holds contain no whitespace and are non-empty (the Files field is "
+    "whitespace separated), so there 'newlines' of the quantifier occur in "
     "names and as pattern separators of parsed documents; patterns holding newlines or blanks are "
     "handed to globs_to_re() directly and the expression it returns is asked with fullmatch(), "
     "exactly as FilesParagraph.matches does (non-empty patterns only)",
+    "a list in which a pattern holds white space, handed to FilesParagraph.create() or the files "
+    "setter: refusing it with ValueError is allowed (the unchanged library always does, so the "
+    "accepted branch is exercised only by a changed library) and then the paragraph must still "
+    "show and match the list it held; if it is accepted, matches() and find_files_paragraph must "
+    "answer for the patterns as they were given - storing a stripped or split list and matching "
+    "that is a violation (signature accepted-list-matched-as-a-different-list); .files is not "
+    "compared in that branch",
+    "field names of the documents the harness writes (and keys of the Deb822 objects it builds) "
+    "may be spelt in any letter case: deb822 field names are case-insensitive, so a paragraph "
+    "with a `files:` field is a Files paragraph and `copyright:` / `license:` satisfy strict",
     "what a list matches is a function of the list: worker processes evaluate many cases one after "
     "the other and the 'before' lists of a case are converted in the same process, so a "
     "violation caused by state the library keeps between calls may need the earlier "
@@ -167,7 +206,10 @@ EXHAUSTIVE = {
              "globs_to_re: 135 characters x 12 lists x 11 names; all lists of one pattern <=4 and "
              "two patterns <=2 characters over {a * newline} after all their siblings; all "
              "documents of 1..2 paragraphs over 3 lists x every choice of omitted "
-             "Copyright/License x strict False/True/default",
+             "Copyright/License x strict False/True/default; 3 documents x (every field-name "
+             "occurrence x 3 styles + all 255 style assignments to Format/Files/Copyright/License) "
+             "x strict False/True/default; 13 white-space strings x 5 patterns x 6 places x 3 list "
+             "shapes x (create, setter, built-document paragraph/edit, parsed-document edit)",
     "thorough": "quick, plus one pattern x names of 4 chars, all lists of two patterns of <=3 tokens "
                 "over {a / * ? \\*} and of three patterns of <=2 tokens over {a / * ?} x names <=3 chars",
 }
@@ -178,7 +220,8 @@ _log = logging.getLogger(C.__name__)
 _log.addHandler(logging.NullHandler())
 _log.propagate = False
 
-FORMAT = "Format: https://www.debian.org/doc/packaging-manuals/copyright-format/1.0/\n"
+FORMAT_VALUE = ": https://www.debian.org/doc/packaging-manuals/copyright-format/1.0/\n"
+FORMAT = "Format" + FORMAT_VALUE
 LEADS = ["", " ", "  ", "\t", "\n ", "\n\t"]
 SEPS = [" ", "  ", "\t", "\n ", "\n  ", "\n\t", " \n "]
 
@@ -197,6 +240,41 @@ def _is_glob_list(x):
     return isinstance(x, list) and len(x) >= 1 and all(isinstance(p, str) and p != "" for p in x)
 
 
+def _is_given_list(x):
+    """A list of non-empty patterns that the white-space separated Files field cannot carry: some
+    pattern holds white space (at an end or inside).  The setter / create() may refuse it."""
+    return _is_glob_list(x) and not _is_pattern_list(x)
+
+
+STYLES = ("asis", "lower", "upper", "swap")
+
+
+class Speller(object):
+    """Spells the field names of a document the harness writes out: occurrence k of a field name
+    is written in style fieldcase[k % len(fieldcase)] (deb822 field names are case-insensitive).
+    Without a usable "fieldcase" every name is written as the specification spells it."""
+
+    def __init__(self, fieldcase):
+        self.styles = [x for x in fieldcase if x in STYLES] if isinstance(fieldcase, list) else []
+        self.k = 0
+        self.respelt = set()
+
+    def __call__(self, field):
+        if not self.styles:
+            return field
+        style = self.styles[self.k % len(self.styles)]
+        self.k += 1
+        out = {"asis": field, "lower": field.lower(), "upper": field.upper(),
+               "swap": field.swapcase()}[style]
+        if out != field:
+            self.respelt.add(field)
+        return out
+
+    def labels(self, labels):
+        for f in self.respelt:
+            labels.add("field-name-in-other-letter-case:" + f)
+
+
 OPTIONAL_FIELDS = ("Copyright", "License")
 
 
@@ -207,9 +285,11 @@ def _omit(x):
     return []
 
 
-def files_para_text(patterns, seps, omit):
-    return (files_field(patterns, seps) + ("" if "Copyright" in omit else "Copyright: c\n")
-            + ("" if "License" in omit else "License: L\n"))
+def files_para_text(patterns, seps, omit, sp=None):
+    sp = sp or Speller(None)
+    return (files_field(patterns, seps, sp("Files"))
+            + ("" if "Copyright" in omit else sp("Copyright") + ": c\n")
+            + ("" if "License" in omit else sp("License") + ": L\n"))
 
 
 def _is_names(x):
@@ -230,8 +310,8 @@ def files_value(patterns, seps):
     return "".join(_sep(seps, i) + p for i, p in enumerate(patterns))
 
 
-def files_field(patterns, seps):
-    return "Files:" + files_value(patterns, seps) + "\n"
+def files_field(patterns, seps, name="Files"):
+    return name + ":" + files_value(patterns, seps) + "\n"
 
 
 # ------------------------------------------------------------------------------------------
@@ -308,16 +388,17 @@ def read_maybe_refused(text, case, labels, incomplete):
 HANDLES = ("own", "deb822", "twin")
 
 
-def wrap_para(patterns, omit=()):
+def wrap_para(patterns, omit=(), sp=None):
     """(paragraph, the Deb822 it wraps): the public constructor over a caller-owned Deb822.
     With fields left out the constructor is told strict=False (its documented way to accept
-    such data)."""
+    such data).  ``sp`` spells the keys the harness stores the fields under."""
+    sp = sp or Speller(None)
     d = D.Deb822()
-    d["Files"] = " ".join(patterns)
+    d[sp("Files")] = " ".join(patterns)
     if "Copyright" not in omit:
-        d["Copyright"] = "c"
+        d[sp("Copyright")] = "c"
     if "License" not in omit:
-        d["License"] = "L"
+        d[sp("License")] = "L"
     if omit:
         return C.FilesParagraph(d, strict=False), d
     return C.FilesParagraph(d), d
@@ -623,12 +704,15 @@ def new_para(patterns):
 
 def check_para(case):
     patterns, names, via = case.get("patterns"), case["names"], case.get("via")
+    if via in ("create", "assign") and _is_given_list(patterns):
+        return check_given(case)
     if not _is_pattern_list(patterns) or via not in ("create", "assign", "parse"):
         return (False, ("invalid-case-skipped",))
     labels = set(["para", "via:" + via])
     pattern_labels(patterns, labels)
     near = 0
     ref = Ref(patterns)
+    sp = Speller(case.get("fieldcase"))
     if via == "create":
         p = new_para(patterns)
         readback(p, patterns, "create")
@@ -651,7 +735,7 @@ def check_para(case):
         if handle == "own":
             p = new_para(prev)
         else:
-            p, d = wrap_para(prev)
+            p, d = wrap_para(prev, (), sp)
             if handle == "twin":
                 twin = C.FilesParagraph(d)
         how = "Files changed through %s: " % handle
@@ -677,7 +761,7 @@ def check_para(case):
         omit = _omit(case.get("omit"))
         for f in omit:
             labels.add("files-paragraph-without-" + f)
-        text = FORMAT + "\n" + files_para_text(patterns, seps, omit)
+        text = sp("Format") + FORMAT_VALUE + "\n" + files_para_text(patterns, seps, omit, sp)
         if "\n" in files_field(patterns, seps)[:-1]:
             labels.add("parse:patterns-on-continuation-lines")
         doc = read_maybe_refused(text, case, labels, bool(omit))
@@ -688,8 +772,111 @@ def check_para(case):
             raise Violation("files-field-misread", "%r parsed into %d Files paragraphs" % (text, len(ps)))
         readback(ps[0], patterns, "parse of %r" % text)
         near = observe(ps[0], ref, names, "parsed", labels)
+        if sp.respelt:
+            # the lookup of a document sees the paragraph too
+            doc_observe(doc, [patterns], names, "document %s" % short(text, 200), set())
+    sp.labels(labels)
     nontrivial = len(patterns) >= 2 and ref.legal and near > 0
     return (nontrivial, sorted(labels))
+
+
+ALTERED = "accepted-list-matched-as-a-different-list"
+
+
+def give(fn, labels):
+    """Hand a list the Files field cannot carry to the setter / create().  True = accepted,
+    False = refused with ValueError (MachineReadableFormatError is one) - both are allowed."""
+    try:
+        fn()
+    except ValueError:
+        labels.add("given-list-refused")
+        return False
+    labels.add("given-list-accepted")
+    return True
+
+
+def observe_given(p, ref, names, where, labels=None):
+    """observe() for a list that was accepted although the field cannot carry it: the paragraph
+    has to match as the patterns that were GIVEN say (whatever it stored)."""
+    try:
+        return observe(p, ref, names, where, labels)
+    except Violation as v:
+        raise Violation(ALTERED, "%s [the list holds white space and was accepted, so it has to "
+                        "be matched as given; .files reads back %r]" % (v.msg, _files_of(p)))
+
+
+def _files_of(p):
+    try:
+        return p.files
+    except Exception as e:      # only for the message
+        return "<%s>" % type(e).__name__
+
+
+def clean_relative(patterns):
+    """The list a lenient setter might store instead: every pattern split at white space."""
+    return [q for pt in patterns for q in pt.split()]
+
+
+def check_given(case):
+    """via create / assign with a list in which a pattern holds white space.  EITHER the list is
+    refused (ValueError) and the paragraph goes on matching what it held (and shows) before, OR
+    it is accepted and matches() follows the patterns as they were given."""
+    patterns, names, via = case["patterns"], case["names"], case["via"]
+    labels = set(["para", "via:" + via, "given-list-holds-white-space"])
+    pattern_labels(patterns, labels)
+    ref = Ref(patterns)
+    near = 0
+    if via == "create":
+        box = []
+        if give(lambda: box.append(new_para(patterns)), labels):
+            near = observe_given(box[0], ref, names, "create", labels)
+            observe_given(box[0], ref, names[:2], "create, second call")
+        return (len(patterns) >= 2 and ref.legal and near > 0, sorted(labels))
+    prev = case.get("prev")
+    if not _is_pattern_list(prev):
+        return (False, ("invalid-case-skipped",))
+    pref = Ref(prev)
+    handle = "twin" if case.get("handle") == "twin" else "own"    # the routes that use the setter
+    labels.add("handle:" + handle)
+    d = twin = None
+    if handle == "own":
+        p = new_para(prev)
+    else:
+        p, d = wrap_para(prev, (), Speller(case.get("fieldcase")))
+        twin = C.FilesParagraph(d)
+    how = "Files set through %s to a list holding white space: " % handle
+    clean = clean_relative(patterns)
+    held, href = prev, pref
+    nt = False
+    observe(p, pref, names, "before re-assignment")
+    for rnd, nxt in enumerate((patterns, clean, patterns, prev)):
+        if not nxt:
+            continue
+        if nxt is patterns:
+            if give(lambda: set_files(p, d, twin, patterns, handle), labels):
+                held, href = patterns, ref
+                n = observe_given(p, ref, names, how + "accepted (round %d)" % rnd, labels)
+                nt = nt or (n > 0 and len(patterns) >= 2 and ref.legal)
+                if twin is not None:
+                    observe_given(twin, ref, names[:2], how + "accepted, twin (round %d)" % rnd)
+                continue
+            # refused: the paragraph still holds - and matches - what it held before
+            where = how + "refused (round %d), paragraph still holds %r" % (rnd, held)
+            if held is patterns:
+                observe_given(p, href, names, where)
+            else:
+                readback(p, held, where)
+                n = observe(p, href, names, where, labels if rnd == 0 else None, fresh_check=True)
+                nt = nt or (n > 0 and len(held) >= 2 and href.legal)
+        else:
+            set_files(p, d, twin, nxt, handle)
+            held, href = nxt, (pref if nxt is prev else Ref(nxt))
+            where = how + "then Files = %r (round %d)" % (nxt, rnd)
+            readback(p, nxt, where)
+            observe(p, href, names, where, fresh_check=True)
+            if twin is not None:
+                observe(twin, href, names[:2], where + ", twin", fresh_check=True)
+    return (nt, sorted(labels))
 
 
 def readback(p, patterns, where):
@@ -706,6 +893,10 @@ def check_doc(case):
     for e in paras:
         if isinstance(e, list) and len(e) >= 2 and e[0] == "F" and _is_pattern_list(e[1]):
             norm.append(("F", e[1], e[2] if len(e) > 2 else None, _omit(e[3] if len(e) > 3 else None)))
+        elif (isinstance(e, list) and len(e) >= 2 and e[0] == "F" and via == "dump"
+              and _is_given_list(e[1])):
+            # a list holding white space: handed to create(), which may refuse it
+            norm.append(("F", e[1], None, []))
         elif (isinstance(e, list) and len(e) >= 2 and e[0] == "X" and isinstance(e[1], str)
               and e[1].strip() == e[1] and e[1] != "" and e[1].isprintable()):
             if via == "text":            # there is no way to build such a paragraph
@@ -716,10 +907,12 @@ def check_doc(case):
         else:
             return (False, ("invalid-case-skipped",))
     flists = [e[1] for e in norm if e[0] == "F"]
-    if not flists:
+    if not any(_is_pattern_list(fl) for fl in flists):
         return (False, ("invalid-case-skipped",))
     labels = set(["doc", "via:doc-" + via, "doc:files-paragraphs=%d" % min(len(flists), 4)])
     wrap = via == "dump" and case.get("wrap") is True
+    sp = Speller(case.get("fieldcase"))
+    given = set()       # indexes of Files paragraphs holding an accepted list with white space
     incomplete = False
     for e in norm:
         if e[0] == "X":
@@ -740,53 +933,90 @@ def check_doc(case):
         if wrap:
             labels.add("doc:paragraphs-wrap-caller-owned-deb822")
         handles = []
+        flists = []
         for e in norm:
-            if e[0] == "F":
+            if e[0] == "F" and _is_given_list(e[1]):
+                labels.add("given-list-holds-white-space")
+                box = []
+                if not give(lambda: box.append(new_para(e[1])), labels):
+                    continue            # refused: the document goes without this paragraph
+                given.add(len(flists))
+                flists.append(e[1])
+                handles.append(None)
+                doc.add_files_paragraph(box[0])
+            elif e[0] == "F":
                 if wrap:
-                    p, d = wrap_para(e[1], e[3])
+                    p, d = wrap_para(e[1], e[3], sp)
                     handles.append(d)
                 else:
                     p = new_para(e[1])
                     handles.append(None)
+                flists.append(e[1])
                 doc.add_files_paragraph(p)
             else:
                 doc.add_license_paragraph(C.LicenseParagraph.create(C.License(e[1], "text")))
-        nt = doc_observe(doc, flists, names, "built document", labels)
-        nt = apply_edits(doc, flists, names, case.get("edits"), labels, handles, wrap) or nt
-        text = doc.dump()
-        doc2 = read_maybe_refused(text, case, labels, incomplete)
-        if doc2 is not None:
-            doc_observe(doc2, flists, names, "re-read document %s" % short(text, 200), set())
+        nt = doc_observe(doc, flists, names, "built document", labels, given=given)
+        nt = apply_edits(doc, flists, names, case.get("edits"), labels, handles, wrap, given) or nt
+        if given:
+            # what such a paragraph stored is its own affair; the written form is not compared
+            labels.add("doc:not-re-read(holds-an-accepted-list-with-white-space)")
+        else:
+            text = doc.dump()
+            doc2 = read_maybe_refused(text, case, labels, incomplete)
+            if doc2 is not None:
+                doc_observe(doc2, flists, names, "re-read document %s" % short(text, 200), set())
     else:
-        chunks = [FORMAT]
+        chunks = [sp("Format") + FORMAT_VALUE]
         for e in norm:
             if e[0] == "F":
-                chunks.append(files_para_text(e[1], e[2], e[3]))
+                chunks.append(files_para_text(e[1], e[2], e[3], sp))
             elif e[0] == "X":
-                chunks.append("Comment: %s\n" % e[1])
+                chunks.append("%s: %s\n" % (sp("Comment"), e[1]))
             else:
-                chunks.append("License: %s\n text\n" % e[1])
+                chunks.append("%s: %s\n text\n" % (sp("License"), e[1]))
         text = "\n".join(chunks)
         doc = read_maybe_refused(text, case, labels, incomplete)
         if doc is None:
             return (False, sorted(labels))
         nt = doc_observe(doc, flists, names, "document %s" % short(text, 200), labels)
         nt = apply_edits(doc, flists, names, case.get("edits"), labels,
-                         [None] * len(flists), False) or nt
+                         [None] * len(flists), False, given) or nt
+    sp.labels(labels)
     return (nt and len(flists) >= 2, sorted(labels))
 
 
-def apply_edits(doc, flists, names, edits, labels, handles, wrap):
+def apply_edits(doc, flists, names, edits, labels, handles, wrap, given):
     """The same document object is queried again after each change to it: which paragraph a name
     resolves to is a function of the current pattern lists only, not of earlier answers.
-    ``handles[i]`` is the Deb822 under Files paragraph i when the harness built it (else None)."""
+    ``handles[i]`` is the Deb822 under Files paragraph i when the harness built it (else None);
+    ``given`` holds the indexes of the paragraphs whose list holds white space (and was accepted)."""
     nt = False
-    if not isinstance(edits, list):
+    if not isinstance(edits, list) or not flists:
         return nt
     for k, e in enumerate(edits):
         if not (isinstance(e, list) and len(e) >= 2):
             continue
         if (e[0] == "files" and len(e) in (3, 4) and isinstance(e[1], int)
+                and not isinstance(e[1], bool) and _is_given_list(e[2])):
+            # a list the field cannot carry goes through the paragraph's own setter: refused
+            # (nothing changes) or accepted (the lookup follows the patterns as given)
+            i = e[1] % len(flists)
+            p = list(doc.all_files_paragraphs())[i]
+            labels.add("given-list-holds-white-space")
+            if give(lambda: set_files(p, None, None, tuple(e[2]), "own"), labels):
+                flists[i] = list(e[2])
+                given.add(i)
+            labels.add("doc-edit:files-reassigned")
+        elif (e[0] == "add" and _is_given_list(e[1])):
+            labels.add("given-list-holds-white-space")
+            box = []
+            if give(lambda: box.append(new_para(e[1])), labels):
+                doc.add_files_paragraph(box[0])
+                handles.append(None)
+                given.add(len(flists))
+                flists.append(list(e[1]))
+                labels.add("doc-edit:paragraph-added")
+        elif (e[0] == "files" and len(e) in (3, 4) and isinstance(e[1], int)
                 and not isinstance(e[1], bool) and _is_pattern_list(e[2])):
             i = e[1] % len(flists)
             p = list(doc.all_files_paragraphs())[i]
@@ -801,6 +1031,7 @@ def apply_edits(doc, flists, names, edits, labels, handles, wrap):
                             else C.FilesParagraph(handles[i], strict=False))
                 set_files(p, handles[i], twin, e[2], handle)
             flists[i] = list(e[2])
+            given.discard(i)
             labels.add("doc-edit:files-reassigned")
             if handle != "own":
                 labels.add("doc-edit:files-changed-through-" + handle)
@@ -816,7 +1047,7 @@ def apply_edits(doc, flists, names, edits, labels, handles, wrap):
         else:
             continue
         nt = doc_observe(doc, flists, names, "document after edit %d %r" % (k, e), labels,
-                         fresh_check=True) or nt
+                         fresh_check=not given, given=given) or nt
     return nt
 
 
@@ -831,20 +1062,24 @@ def plainer(name):
     return out
 
 
-def doc_observe(doc, flists, names, where, labels, fresh_check=False):
+def doc_observe(doc, flists, names, where, labels, fresh_check=False, given=()):
     ps = list(doc.all_files_paragraphs())
     if len(ps) != len(flists):
         raise Violation("files-field-misread", "%s: %d Files paragraphs, expected %d"
                         % (where, len(ps), len(flists)))
-    for p, fl in zip(ps, flists):
-        readback(p, fl, where)
+    for i, (p, fl) in enumerate(zip(ps, flists)):
+        if i not in given:
+            readback(p, fl, where)
     refs = [Ref(fl) for fl in flists]
     some_illegal = any(not r.legal for r in refs)
     if some_illegal:
         labels.add("doc:has-illegal-pattern")
     # each paragraph on its own first: a wrong matches() keeps its own root-cause signature
     for i, (p, r) in enumerate(zip(ps, refs)):
-        observe(p, r, names, "Files paragraph %d of %s" % (i, where), fresh_check=fresh_check)
+        if i in given:
+            observe_given(p, r, names, "Files paragraph %d of %s" % (i, where))
+        else:
+            observe(p, r, names, "Files paragraph %d of %s" % (i, where), fresh_check=fresh_check)
     nontrivial = False
     for name in names:
         hits = [i for i, r in enumerate(refs) if r.legal and r.matches(name)]
@@ -1143,6 +1378,122 @@ def enum_incomplete():
                 yield case
 
 
+def field_slots(paras, wrap=False):
+    """The field names of a document in the order the harness writes them (see Speller)."""
+    out = [] if wrap else ["Format"]
+    for e in paras:
+        if e[0] == "F":
+            om = e[3] if len(e) > 3 else []
+            out += ["Files"] + [f for f in OPTIONAL_FIELDS if f not in om]
+        elif e[0] == "L" and not wrap:
+            out.append("License")
+        elif e[0] == "X" and not wrap:
+            out.append("Comment")
+    return out
+
+
+def enum_fieldcase():
+    """Parsed documents (and paragraphs over caller-built Deb822 objects) whose field names are
+    spelt in another letter case: one occurrence at a time in each style, and every assignment of
+    the four styles to the names Format / Files / Copyright / License."""
+    names = ["a", "a/a", "b", "ab", "c", ""]
+    layouts = [
+        [["F", ["*"], [" "]], ["F", ["a/*", "b"], ["\n "]], ["L", "MIT"]],
+        [["F", ["a*"], [" "]], ["L", "MIT"], ["F", ["*/a", "b"], [" "]]],
+        [["F", ["a/*"], [" "]], ["F", ["b"], [" "]], ["F", ["a/a", "c"], [" "]]],
+    ]
+    k = 0
+    for paras in layouts:
+        slots = field_slots(paras)
+        plans = []
+        for i in range(len(slots)):
+            for style in STYLES[1:]:
+                plans.append(["asis"] * i + [style] + ["asis"] * (len(slots) - i - 1))
+        for combo in itertools.product(STYLES, repeat=4):
+            if combo != ("asis",) * 4:
+                per = dict(zip(("Format", "Files", "Copyright", "License"), combo))
+                plans.append([per.get(f, "lower") for f in slots])
+        for plan in plans:
+            for strict in (False, True, None):
+                k += 1
+                case = {"kind": "doc", "via": "text", "paras": paras, "names": names,
+                        "fieldcase": plan, "input": INPUTS[k % 4]}
+                if strict is not None:
+                    case["strict"] = strict
+                if k % 7 == 0:
+                    case["edits"] = [["files", k, ["c*"]]]
+                yield case
+    # a Files paragraph without Copyright / License under a respelt name (strict decides)
+    for style in STYLES[1:]:
+        for om in (["License"], ["Copyright"], ["Copyright", "License"]):
+            for strict in (False, True, None):
+                k += 1
+                paras = [["F", ["*"], [" "]], ["F", ["a/*", "b"], [" "], om], ["L", "MIT"]]
+                case = {"kind": "doc", "via": "text", "paras": paras, "names": names,
+                        "fieldcase": [style], "input": INPUTS[k % 4]}
+                if strict is not None:
+                    case["strict"] = strict
+                yield case
+    # single paragraphs
+    for combo in itertools.product(STYLES, repeat=4):
+        for strict in (False, True, None):
+            k += 1
+            case = {"kind": "para", "via": "parse", "patterns": ["a/*", "b"], "seps": [" ", "\n "],
+                    "names": names, "fieldcase": list(combo), "input": INPUTS[k % 4]}
+            if strict is not None:
+                case["strict"] = strict
+            yield case
+    # paragraphs built with FilesParagraph(Deb822) over keys the harness spells
+    for combo in itertools.product(STYLES, repeat=3):
+        k += 1
+        yield {"kind": "doc", "via": "dump", "wrap": True, "fieldcase": list(combo),
+               "paras": [["F", ["*"], [" "]], ["F", ["a/*", "b"], [" "]]], "names": names,
+               "edits": [["files", k, ["a*"], HANDLES[k % 3]]]}
+        yield {"kind": "para", "via": "assign", "handle": HANDLES[1 + k % 2], "prev": ["a*"],
+               "patterns": ["a/*", "b"], "seps": [" "], "names": names, "fieldcase": list(combo)}
+
+
+# white space the Files field cannot carry inside a pattern (str.split() separates at all of them)
+WS = [" ", "\t", "\n", "\r", "\x0b", "\x0c", "\x1c", "\x85", "\xa0", "\u2028", "\u3000",
+      " \n", "\r\n"]
+
+
+def given_names(lists):
+    out = []
+    for n in sibling_names(lists):
+        for m in (n, n.strip()):
+            if m not in out:
+                out.append(m)
+    return out
+
+
+def enum_given():
+    """Lists handed to create() / the files setter in which a pattern holds white space at an end,
+    at both ends, inside, or is nothing else - through every route that takes a list."""
+    bases = ["a", "a*", "*", "a/?", "\\*a"]
+    k = 0
+    for w in WS:
+        for b in bases:
+            for x in (w + b, b + w, w + b + w, b + w + "b", b + w + b, w):
+                for pl in ([x], [x, "b"], ["b", x]):
+                    if pl == [w]:
+                        pl = [w, w]
+                    clean = clean_relative(pl)
+                    rel = [pl] + ([clean] if clean else []) + [[p.strip() for p in pl if p.strip()] or ["b"]]
+                    names = given_names(rel)[:14]
+                    k += 1
+                    yield {"kind": "para", "via": "create", "patterns": pl, "names": names}
+                    yield {"kind": "para", "via": "assign", "handle": ("own", "twin")[k % 2],
+                           "prev": [["zz"], ["a"], ["*"], ["b", "a*"]][k % 4], "patterns": pl,
+                           "names": names}
+                    yield {"kind": "doc", "via": "dump", "names": names,
+                           "paras": [["F", ["a*"], [" "]], ["F", pl]] + ([["F", ["b"], [" "]]] if k % 2 else []),
+                           "edits": [["files", 0, pl], ["files", 1, ["a"]], ["add", pl]][k % 3:][:2]}
+                    yield {"kind": "doc", "via": "text", "names": names,
+                           "paras": [["F", ["*"], [" "]], ["F", ["a", "b*"], [" "]]],
+                           "edits": [["files", k, pl], ["add", pl]]}
+
+
 def translate(x, table):
     """The case with every pattern and name character replaced according to ``table`` (a
     character-for-character renaming of letters keeps what matches what)."""
@@ -1357,6 +1708,10 @@ def gen_para(draw):
             [draw(st.sampled_from(SEPS)) for _ in range(len(tl) - 1)]
     n = draw(st.integers(1, 5))
     case["names"] = [derived_name(draw, lists) for _ in range(n)]
+    if via != "parse" and draw(st.integers(0, 7)) == 0:
+        case["patterns"] = draw_white_space(draw, case["patterns"], case["names"])
+    if via == "parse" or (via == "assign" and case["handle"] != "own"):
+        draw_fieldcase(draw, case)
     if via == "parse":
         draw_strict(draw, case, None)
     draw_before(draw, case, [case["patterns"]] + ([case["prev"]] if via == "assign" else []), 2)
@@ -1380,6 +1735,35 @@ def draw_strict(draw, case, paras):
             e.append(draw(choice))
     if draw(st.integers(0, 3)) == 0:
         paras.insert(draw(st.integers(0, len(paras))), ["X", "see upstream"])
+
+
+def draw_fieldcase(draw, case):
+    """One case in four spells the field names it writes in other letter case."""
+    if draw(st.integers(0, 3)) == 0:
+        case["fieldcase"] = draw(st.lists(st.sampled_from(STYLES + STYLES[1:]), min_size=1, max_size=8))
+
+
+def draw_white_space(draw, patterns, names):
+    """The list with white space put into one pattern (at an end, both ends or inside); the first
+    name is added with the same white space around it."""
+    pl = list(patterns)
+    i = draw(st.integers(0, len(pl) - 1))
+    w = draw(st.sampled_from(WS))
+    how = draw(st.integers(0, 3))
+    p = pl[i]
+    if how == 0:
+        p = w + p
+    elif how == 1:
+        p = p + w
+    elif how == 2:
+        k = draw(st.integers(0, len(p)))
+        p = p[:k] + w + p[k:]
+    else:
+        p = w + p + draw(st.sampled_from(WS))
+    pl[i] = p
+    if names:
+        names.extend([w + names[0], names[0] + w])
+    return pl
 
 
 def draw_input_form(draw, case):
@@ -1440,6 +1824,16 @@ def gen_doc(draw):
     case = {"kind": "doc", "via": via, "paras": paras, "names": names}
     if edits:
         case["edits"] = edits
+    if draw(st.integers(0, 7)) == 0:
+        # white space inside a list that goes through create() or the setter
+        if edits and draw(st.booleans()):
+            e = edits[draw(st.integers(0, len(edits) - 1))]
+            k = 1 if e[0] == "add" else 2
+            e[k] = draw_white_space(draw, e[k], names)
+        elif via == "dump" and nf >= 2:
+            e = [q for q in paras if q[0] == "F"][draw(st.integers(0, nf - 1))]
+            e[1] = draw_white_space(draw, e[1], names)
+    draw_fieldcase(draw, case)
     if via == "dump" and draw(st.booleans()):
         case["wrap"] = True
         for e in edits:
@@ -1466,6 +1860,15 @@ def extra_enums(tier):
              "and of two patterns of <=2 (thorough 3) characters over {a * newline} (+64 of three "
              "patterns) converted after all its siblings; 20 two-pattern lists met by a paragraph "
              "(create/parse/assign) and by a document after their siblings were converted"),
+        Enum("field-name-case", enum_fieldcase, "3 documents of 2..3 Files paragraphs (+ License "
+             "paragraph): each field-name occurrence in lower / upper / swapped case, and all 255 "
+             "assignments of 4 styles to Format / Files / Copyright / License, x strict "
+             "False/True/default x 4 input forms; incomplete paragraphs under respelt names; single "
+             "paragraphs in all 256 spellings; paragraphs over Deb822 objects keyed in 64 spellings"),
+        Enum("given-lists-with-white-space", enum_given, "13 white-space strings x 5 patterns x 6 "
+             "places (front, end, both, inside twice, alone) x 3 list shapes, handed to create(), "
+             "the files setter (own / twin wrapper), a built document's paragraphs and edits, a "
+             "parsed document's edits"),
         Enum("incomplete-paragraphs", enum_incomplete, "1..2 Files paragraphs over 3 lists, each "
              "without every non-empty choice from {Copyright, License} somewhere, with License / "
              "field-less bystander paragraphs, x strict=False/True/default x 4 input forms, as "
